@@ -381,13 +381,13 @@ func TestVerifC04Breach(t *testing.T) {
 		defer s.Close()
 
 		// Legacy revocation log (added after seeded change C04f): on a
-		// quarter of the channels of a type that existed before v0.15
+		// third of the channels of a type that existed before v0.15
 		// the revocation log entries written so far are, at one
 		// generated point, rewritten in the pre-v0.15 format
 		// (deprecated bucket, complete commitment) - a node upgraded
 		// without the optional migration. States revoked later go to
 		// the current bucket, so both layouts coexist.
-		legacyMode := rapid.IntRange(0, 3).Draw(t, "legacyRevocationLog") == 0 &&
+		legacyMode := rapid.IntRange(0, 2).Draw(t, "legacyRevocationLog") == 0 &&
 			!p.ChanType.IsTaproot()
 		legacyDone := false
 		legacyEntries, mixedAfter := 0, 0
@@ -466,7 +466,7 @@ func TestVerifC04Breach(t *testing.T) {
 			AfterCut: func(s *chansim.Sim, _ *chansim.RetransmitReport) error {
 				reloads++
 				if legacyMode && !legacyDone && len(revs) > 0 &&
-					rapid.IntRange(0, 2).Draw(t, "downgradeNow") == 0 {
+					rapid.IntRange(0, 2).Draw(t, "downgradeNow") != 0 {
 
 					if err := downgrade(s); err != nil {
 						return err
